@@ -269,3 +269,23 @@ Example C07_nonvacuous :
   export (EObj [([46], JStr [120]); ([46], JOther 0); ([46;47;97], JStr [121])]) [46] = None /\
   exports (EObj [([46], JOther 0); ([46], JStr [120]); ([46;47;97], JStr [121])]) = [([46], [120]); ([46;47;97], [121])].
 Proof. vm_compute. repeat split; reflexivity. Qed.
+
+(* ---------- stage B2: the builder's use of the registry, Model/Jsr.v ----------
+   After a completed build, every jsr: specifier that has a redirect is redirected
+   to the URL that the exports map of the manifest of ONE version of the named
+   package gives for the specifier's export, and that version satisfies the
+   specifier's requirement. *)
+From DG Require Model.Jsr Proofs.JsrProofs.
+
+Theorem C07_registry_redirect : forall W o roots g s t pkg req exp,
+  Jsr.wf_jworld W = true -> Jsr.jbuild W o roots = Some g ->
+  lookup s (Jsr.jg_redirects g) = Some t -> Jsr.cls_of W s = Jsr.CJsr pkg req exp ->
+  exists ver vi, Jsr.v_meta (Jsr.ver_of W (pkg, ver)) = Jsr.VOk vi /\
+                 lookup exp (Jsr.vi_exports vi) = Some t /\ Jsr.matches W req ver = true.
+Proof.
+  intros W o roots g s t pkg req exp Hwf Hb Hl Hc.
+  pose proof (proj2 (proj2 (JsrProofs.jbuild_jinv W Hwf o roots g Hb)) s t Hl) as Hr.
+  unfold JsrProofs.RedOK in Hr. rewrite Hc in Hr. destruct Hr as [ver [vi [Hm [He [_ Hmt]]]]].
+  exists ver, vi. repeat split; assumption.
+Qed.
+Print Assumptions C07_registry_redirect.
